@@ -290,7 +290,8 @@ def _relate_table(ctx, r, am, qual, method, exc_name):
         for bits in itertools.product([False, True], repeat=nbits):
             st = {'none': {P_FROM: nf, P_TO: nt}, 'bits': bits, 'vars': {}}
             out, tr = it.run(st)
-            ops = [t for t in tr if t[0] == 'op']
+            ops = [_canon_op(t) for t in tr if t[0] == 'op']
+            tr = [_canon_op(t) if t[0] == 'op' else t for t in tr]
             used = len(ops)
             desc = '%s(none_from=%d,none_to=%d,results=%s)' % (fn.name, nf, nt,
                                                            ''.join('T' if b else 'F' for b in bits))
@@ -404,6 +405,17 @@ EXPECTED_ROLES = {
     'target_link': {'from': 'SRC', 'to': 'TGT', 'many': 'target_many', 'conditional': 'target_conditional',
                     'phrase': 'source_phrase'},
 }
+
+
+def _canon_op(t):
+    '''a link operation record with the `check` argument of connect(instance, another_instance, check=True) always by keyword'''
+    (tag, field, meth, args, kws, res, owner) = t
+    if len(args) > 2:
+        kws = dict(kws, check=args[2])
+        args = tuple(args[:2])
+    if kws.get('check') == 'True':
+        kws = {k: v for k, v in kws.items() if k != 'check'}
+    return (tag, field, meth, args, kws, res, owner)
 
 
 def swap(ctx, am):
